@@ -58,6 +58,12 @@ fn main() {
         Some("replay") if args.len() >= 3 => parent::replay(&args[2]),
         Some("dbg") if args.len() >= 5 => parent::dbg(&args[2], args[3].parse().unwrap_or(0), args[4].parse().unwrap_or(1)),
         Some("dump") if args.len() >= 4 => parent::dump(&args[2], &args[3]),
+        Some("soup") if args.len() >= 3 => {
+            let p = corpus::soup(args[2].parse().unwrap_or(0));
+            println!("// args: {:?}", p.args);
+            print!("{}", String::from_utf8_lossy(&p.source));
+            0
+        }
         Some("one") if args.len() >= 3 => parent::one(&args[2], &args[3..]),
         _ => usage(),
     };
